@@ -159,8 +159,42 @@ def case(draw):
     return {"lines": lines, "cmds": cmds, "wa": draw(st.booleans())}
 
 
+@st.composite
+def bigfilter(draw):
+    """a filter whose input is larger than a pipe takes at once (64 KiB): the text must reach the command complete and in order"""
+    n = draw(st.sampled_from([1800, 1872, 1873, 1900, 2500, 4000, 20000]))
+    a = draw(st.sampled_from([1, 2, 5]))
+    b = draw(st.sampled_from([0, 1, 3]))         # lines left out at the end
+    return {"kind": "bigfilter", "n": n, "a": a, "b": b, "sh": draw(st.sampled_from(["cat", "cat", "tail -n 1", "head -n 3", "wc -l"])),
+            "w": draw(st.sampled_from([35, 35, 8, 120]))}
+
+
 def strategy(tier):
-    return case()
+    return st.one_of(*([case()] * 30 + [bigfilter()]))
+
+
+def run_bigfilter(env, c):
+    d = env.fresh()
+    lines = [("line %06d " % i).ljust(c["w"] - 1, "abcdefghij"[i % 10]) for i in range(c["n"])]
+    runner.write_file(d, "f", gen.to_bytes(lines))
+    lo, hi = c["a"], c["n"] - c["b"]
+    script = "se wa\n%d,%d!%s\nw! out\n" % (lo, hi, c["sh"])
+    r = runner.run_editor(env.paths["vi"], ["-s", "-e", "f"], script.encode() + runner.EX_TRAILER, d, want_stats=False)
+    if r.timeout:
+        return Outcome(True, False, ["bigfilter", "timeout"], inconclusive=True)
+    if r.crashed():
+        return Outcome(False, True, ["bigfilter"], detail={"why": "editor crashed", "sig": r.signature()})
+    sel = lines[lo - 1:hi]
+    res = {"cat": sel, "tail -n 1": sel[-1:], "head -n 3": sel[:3], "wc -l": [str(len(sel))]}[c["sh"]]
+    want = gen.to_bytes(lines[:lo - 1] + res + lines[hi:])
+    got = runner.read_file(d, "out")
+    if got != want:
+        gl = (got or b"").split(b"\n")
+        wl = want.split(b"\n")
+        k = next((i for i in range(min(len(gl), len(wl))) if gl[i] != wl[i]), min(len(gl), len(wl)))
+        return Outcome(False, True, ["bigfilter"], detail={"why": "the filter did not receive / return exactly the addressed lines (input of %d bytes)" % sum(len(x) + 1 for x in sel),
+                                                          "case": c, "first_different_line": k, "got": gl[k][:60] if k < len(gl) else None, "want": wl[k][:60] if k < len(wl) else None})
+    return Outcome(True, True, ["bigfilter", "input_gt_64k" if sum(len(x) + 1 for x in sel) > 65536 else "input_le_64k"])
 
 
 # ------------------------------------------------------------------ model execution with the extra commands of this check
@@ -264,6 +298,8 @@ WMSG = re.compile(r'^"s\d+"  \[=\d+\]  \[w\]')
 
 
 def run_case(env, c):
+    if c.get("kind") == "bigfilter":
+        return run_bigfilter(env, c)
     d = env.fresh()
     runner.write_file(d, "f", gen.to_bytes(c["lines"]))
     for k, v in AUX.items():
